@@ -35,12 +35,12 @@ def run(ctx):
     )
     run.trusted_base = ["CPython ast", "transfer/refinement functions of sa/kinds.py"]
     run.assumptions = ["TypeError and ValueError are inside the documented error family", "helpers reached only through CHA edges are not followed"]
-    rule_wrapper(ctx)
-    rule_raw_deref(ctx)
-    rule_optional_subscript(ctx)
-    rule_commit_last(ctx)
-    rule_registry_class_attr(ctx)
-    rule_input_parsers_guarded(ctx)
+    ctx.do(rule_wrapper)
+    ctx.do(rule_raw_deref)
+    ctx.do(rule_optional_subscript)
+    ctx.do(rule_commit_last)
+    ctx.do(rule_registry_class_attr)
+    ctx.do(rule_input_parsers_guarded)
 
 
 def rule_wrapper(ctx):
